@@ -1100,7 +1100,12 @@ def replay_c02(ctx, fl):
         return res == "panic", "real crate: " + ans
     if fl["kind"] == "c02":
         ncalls = int(parts.get("calls", "0"))
-        bad = res == "ok" and (ncalls == 0 or "x" in parts.get("covers", "") or "0" in pattern[:ncalls] or "digest does not match" in fl.get("description", ""))
+        # what each verifier call must be shown, in the order the signatures are consulted: every OpenPGP array item and the header-only legacy
+        # signatures (DSA slot, then RSA) cover the header ('h'), the legacy v3 PGP signature covers header and payload ('c')
+        expect = ("h" * int(og[3])) if og.startswith("arr") else "".join(c for c, st in (("h", dsa), ("h", rsa), ("c", pgp)) if st == "right")
+        cov = parts.get("covers", "").replace("-", "")
+        wrong_cover = any(a != b for a, b in zip(cov, expect))
+        bad = res == "ok" and (ncalls == 0 or "x" in cov or wrong_cover or "0" in pattern[:ncalls] or "digest does not match" in fl.get("description", ""))
         return bad, "real crate with a verifier answering %s (1 = accept): %s" % (pattern, ans)
     if fl["kind"] == "c02live":
         return res != "ok", "real crate with an all-accepting verifier: %s" % ans
